@@ -30,3 +30,14 @@ pub fn serialize_cdata(content: &str) -> String {
 pub fn serialize_attribute(content: &str) -> String {
     crate::entity::serialize_attribute(Cow::Borrowed(content), &NoopNormalizer).into_owned()
 }
+
+/// `from_id(to_id(index))` for the three id types: the lemma behind "an id is
+/// the length of the table at registration time".
+pub fn id_index_round_trip(kind: u8, index: usize) -> usize {
+    use crate::id::{IdIndex, NameId, NamespaceId, PrefixId};
+    match kind {
+        0 => NameId::from_id(NameId::to_id(index)),
+        1 => NamespaceId::from_id(NamespaceId::to_id(index)),
+        _ => PrefixId::from_id(PrefixId::to_id(index)),
+    }
+}
